@@ -146,11 +146,11 @@ GetBind == \E pk \in PKs, sh \in Shards : Can /\ Step("GetBind", pk, sh, DoGetBi
 \* a detached copy exists for rows that are committed and untouched by the open transaction
 Mergeable(k) == /\ HasRow(st, k) /\ RowOf(st, k) \in st.db[k[2]] /\ RowOf(st, k).v < MaxVal
                 /\ k \notin st.dirty /\ k \notin st.del /\ k \notin st.newk
-Merge == \E pk \in PKs, sh \in Shards : Can /\ Mergeable(<<pk, sh>>) /\ Step("Merge", pk, sh, DoMerge(st, <<pk, sh>>))
+MergeObj == \E pk \in PKs, sh \in Shards : Can /\ Mergeable(<<pk, sh>>) /\ Step("Merge", pk, sh, DoMerge(st, <<pk, sh>>))
 Init == /\ P \in Seq2Set(Profiles)
         /\ st = InitSt(P) /\ last = [a |-> "init", x |-> 0, y |-> 0, ret |-> "ok"]
 Next == Add \/ Flush \/ Commit \/ Rollback \/ Expunge \/ Modify \/ Delete \/ QueryAll \/ QueryGrp \/ QueryShard \/ Get
-        \/ GetTok \/ GetBind \/ Merge
+        \/ GetTok \/ GetBind \/ MergeObj
 Spec == Init /\ [][Next]_vars
 View == <<P, st>>
 \* what the binding compares after every step: rows per database file (committed: raw sqlite3; uncommitted: the session's own
